@@ -1,0 +1,17 @@
+//go:build verif
+
+package gonnx
+
+import "github.com/advancedclimatesystems/gonnx/onnx"
+
+// VerifParameters exposes the weight tensors of the model (read-only use) to the verification
+// harness in /verif, so that they can be snapshotted before and after Run.
+func (m *Model) VerifParameters() Tensors {
+	return m.parameters
+}
+
+// VerifProto exposes the protobuf the model was built from (typed-field initializers and
+// attribute tensors share storage with it).
+func (m *Model) VerifProto() *onnx.ModelProto {
+	return m.mp
+}
